@@ -47,13 +47,14 @@ Notation o_cls := (o_cls F).
 Notation o_fields := (o_fields F).
 Variable validate_ok : obj -> bool.
 Variable setup_nml_cell : obj -> obj.
+Variable str_ok : obj -> bool.
 
-Notation store := (store F F_eqb F_of_dec).
-Notation place := (place F F_eqb F_of_dec).
-Notation add_with := (add_with F F_eqb F_of_dec validate_ok setup_nml_cell).
+Notation store := (store F F_eqb F_of_dec str_ok).
+Notation place := (place F F_eqb F_of_dec str_ok).
+Notation add_with := (add_with F F_eqb F_of_dec validate_ok setup_nml_cell str_ok).
 Notation factory_with := (component_factory_with F F_of_dec validate_ok setup_nml_cell).
-Notation add_step := (add_step F F_eqb F_of_dec validate_ok setup_nml_cell).
-Notation run_adds := (run_adds F F_eqb F_of_dec validate_ok setup_nml_cell).
+Notation add_step := (add_step F F_eqb F_of_dec validate_ok setup_nml_cell str_ok).
+Notation run_adds := (run_adds F F_eqb F_of_dec validate_ok setup_nml_cell str_ok).
 Notation with_field := (with_field F).
 Notation py_truthy := (py_truthy F F_eqb F_of_dec).
 Notation obj_eqb := (obj_eqb F F_eqb F_of_dec).
@@ -104,7 +105,8 @@ Proof.
     destruct v; try discriminate.
     destruct force.
     + intro H; inversion H; subst. apply st_list; assumption.
-    + destruct (existsb _ l); intro H; inversion H; subst; [apply st_unchanged|apply st_list; assumption].
+    + destruct (existsb _ l); [destruct (str_ok o); [|discriminate]|]; intro H; inversion H; subst;
+        [apply st_unchanged|apply st_list; assumption].
   - destruct force.
     + intro H; inversion H; subst. apply st_single; assumption.
     + destruct (lookup (ms_name t) (o_fields p)) as [v|]; [|discriminate].
@@ -143,7 +145,7 @@ Qed.
 
 Lemma store_list_dup p o t l :
   ms_container t = true -> field p (ms_name t) = Some (VObjs l) -> existsb (obj_eqb o) l = true ->
-  store p o t false = (Ret p, [WDuplicate (ms_name t)]).
+  store p o t false = if str_ok o then (Ret p, [WDuplicate (ms_name t)]) else (Err ExStr, []).
 Proof.
   intros C L H. unfold Super.store. rewrite C. simpl. unfold field in L. rewrite L, H. reflexivity.
 Qed.
@@ -410,10 +412,11 @@ Lemma add_dup_refused p o hint validate t l :
   chosen (tgs p o) hint = Some t -> ms_container t = true -> field p (ms_name t) = Some (VObjs l) ->
   existsb (obj_eqb o) l = true ->
   let r := add_with fixed msf T enabled p (ChObj F o) hint false validate in
-  ao_parent F r = p /\ In (WDuplicate (ms_name t)) (ao_warn F r).
+  ao_parent F r = p /\
+  (if str_ok o then In (WDuplicate (ms_name t)) (ao_warn F r) else ao_res F r = Err ExStr).
 Proof.
   intros Hch C L Hd. rewrite (add_chosen_unfold p o hint false validate t Hch).
-  rewrite (store_list_dup p o t l C L Hd).
+  rewrite (store_list_dup p o t l C L Hd). destruct (str_ok o); [|simpl; auto].
   destruct (enabled && validate); [destruct (validate_ok _)|]; simpl; auto.
 Qed.
 
